@@ -431,7 +431,7 @@ func (e *eng) Op(f []string, line string, out *hx.Out) {
 		c11(t.x.Len() == len(t.ref), "len")
 		t.changes = append(t.changes, change{k})
 		if len(f) >= 4 && f[3] != "-" {
-			bad += e.addHandle(f[3], w, "ins", k, target{txn: t}, len(f) == 5 && f[4] == "z")
+			bad += e.addHandle(f[3], w, "ins", k, target{txn: t}, false) // the former "z" marker (txn id 0) is ignored: ids start at 1
 		}
 		bad += e.sweep()
 		if f[0] == "mod" {
